@@ -1403,6 +1403,10 @@ class Stage:
                 subst_to.append(ret.t0)
             elif is_equal(k, self.t):
                 subst_to.append(ret.t)
+            elif is_equal(k, self.DT):
+                subst_to.append(ret.DT)
+            elif is_equal(k, self.DT_control):
+                subst_to.append(ret.DT_control)
             else:
                 subst_to.append(MX.sym(k.name(), k.sparsity()))
         # Expressions stored inside placeholders, dynamics and guesses may refer to placeholder symbols
@@ -1414,6 +1418,7 @@ class Stage:
             ret._placeholders[k_new] = (species, renew(expr), p_args, p_kwargs)
 
         ret.states = copy(self.states)
+        ret.qstates = copy(self.qstates)
         ret.controls = copy(self.controls)
         ret.algebraics = copy(self.algebraics)
         ret.parameters = deepcopy(self.parameters)
